@@ -37,6 +37,10 @@ type params struct {
 	Chunked  int    `json:"store_reader_chunk"`
 	ClockCls string `json:"clock"` // dense | sparse | jumps
 	ConcMax  int    `json:"max_concurrency"`
+	// TokenPath: the log uses this token generator object instead of the default one (wal.TokenGeneratorPath);
+	// Neighbour: another log with default options lives in the same stores and has appended before
+	TokenPath string `json:"token_generator_path,omitempty"`
+	Neighbour bool   `json:"neighbour_log_on_default_path,omitempty"`
 }
 
 func gen19(seed int64, tier string) []drv.Case {
@@ -65,7 +69,13 @@ func gen19(seed int64, tier string) []drv.Case {
 		if r.Intn(4) == 0 {
 			p.ConcMax = 1 + r.Intn(4)
 		}
-		cs = append(cs, drv.Case{ID: fmt.Sprintf("wal-%d", i), Class: fmt.Sprintf("adders%d-%s", p.Adders, p.ClockCls), Params: drv.MustJSON(p)})
+		cls := fmt.Sprintf("adders%d-%s", p.Adders, p.ClockCls)
+		if i%3 == 1 {
+			p.TokenPath = fmt.Sprintf("custom/generator-%d", r.Intn(100))
+			p.Neighbour = r.Intn(3) > 0
+			cls += "-custom-token-path"
+		}
+		cs = append(cs, drv.Case{ID: fmt.Sprintf("wal-%d", i), Class: cls, Params: drv.MustJSON(p)})
 	}
 	return cs
 }
@@ -138,8 +148,18 @@ func run19(c drv.Case, res *drv.Result) {
 	if p.ConcMax > 0 {
 		opts = append(opts, wal.MaxConcurrency(p.ConcMax))
 	}
-	lg := wal.New(mutable.For(memstore.NewActor("w")), walS.For(memstore.NewActor("w")), opts...)
 	ctx := context.Background()
+	if p.Neighbour {
+		nb := wal.New(mutable.For(memstore.NewActor("neighbour")), w.Store("wal-neighbour").For(memstore.NewActor("neighbour")), wal.Logger(zap.NewNop()))
+		if _, err := nb.Add(ctx, "neighbour entry"); err != nil {
+			res.Violate("add-failed", "neighbour", "Add on the neighbouring log failed without any injected fault: %v", err)
+			return
+		}
+	}
+	if p.TokenPath != "" {
+		opts = append(opts, wal.TokenGeneratorPath(p.TokenPath))
+	}
+	lg := wal.New(mutable.For(memstore.NewActor("w")), walS.For(memstore.NewActor("w")), opts...)
 
 	// ---- appends
 	var seq int64
@@ -199,10 +219,25 @@ func run19(c drv.Case, res *drv.Result) {
 	// entries of its own second's predecessors and fall out of look-back windows)
 	// (single adder only: with concurrent adders a token may legitimately carry the time of a later touch by another
 	// adder, since the generator is touched and then read)
+	// (any number of adders: a token's second is the second of SOME landed touch this log made — never the creation
+	// time of the generator object or the time of somebody else's touch of another object)
+	ownTouch := map[int64]bool{}
+	for _, e := range w.Log(0) {
+		if e.Op == "touch" && e.Landed && e.Actor == "w" {
+			ownTouch[time.Unix(0, e.T).Unix()] = true
+		}
+	}
+	for _, a := range adds {
+		k, _ := ksuid.Parse(a.token)
+		if !ownTouch[k.Time().Unix()] {
+			res.Violate("token-time-not-its-own-touch", "set", "token %s carries second %d, but no touch of the token generator by this log landed in that second (%d distinct touch seconds)", a.token, k.Time().Unix(), len(ownTouch))
+			break
+		}
+	}
 	if p.Adders == 1 {
 		var touchSecs, tokenSecs []int64
 		for _, e := range w.Log(0) {
-			if e.Op == "touch" && e.Landed {
+			if e.Op == "touch" && e.Landed && e.Actor == "w" {
 				touchSecs = append(touchSecs, time.Unix(0, e.T).Unix())
 			}
 		}
